@@ -821,6 +821,17 @@ def gen_program(r):
         if r.random() < 0.2:
             doc["literal"] = "=inputs.s"     # a template is data: nothing in it is evaluated
         prog["template"] = {"kind": "ref", "doc": doc, "name": r.choice(["tmpl", "=inputs.tname"])}
+        if r.random() < 0.3:
+            # a static template that already carries the identity apiConfig computes (nothing for the forced
+            # overlay to change), typically owned and created as is
+            fo = ref_forced(prog, inputs)
+            doc["apiVersion"], doc["kind"] = fo["apiVersion"], fo["kind"]
+            md = doc["metadata"] if isinstance(doc.get("metadata"), dict) else {}
+            md.update(fo["metadata"])
+            doc["metadata"] = md
+            prog["identity_template"] = True
+            if r.random() < 0.7:
+                prog["owned"], prog["mode"] = True, "create"
     if isinstance(doc.get("metadata"), dict):
         doc["metadata"].pop("ownerReferences", None)
     doc["zz-marker"] = "m"        # never in the live object: the patch path always has something to send
@@ -829,6 +840,8 @@ def gen_program(r):
     forced = ref_forced(prog, inputs)
     cur = ref_deep_overlay(ref_eval(doc, env) if prog["template"]["kind"] == "inline" else doc, forced)
     n_steps = r.choice([0, 1, 1, 2, 2, 3, 4])
+    if prog.get("identity_template") and r.random() < 0.5:
+        n_steps = 0
     bad_skip_at = r.randrange(n_steps) if n_steps and r.random() < 0.15 else None
     for i in range(n_steps):
         skip = r.choice([None, None, "=inputs.t", "=inputs.ff", "=inputs.b"])
@@ -872,7 +885,7 @@ def gen_program(r):
                 prog["overlays"].pop()
                 if new_vf:
                     prog["vfs"].pop(new_vf, None)
-    if prog["mode"] == "create" and r.random() < 0.3:
+    if prog["mode"] == "create" and r.random() < 0.3 and not (prog.get("identity_template") and not prog["overlays"]):
         cur2 = ref_deep_overlay(cur, forced) if prog["overlays"] else cur
         res_paths = [["resource", k] for k in cur2 if k.isidentifier()]
         prog["create"] = (copy.deepcopy(r.choice(IDENTITY_ATTACKS)) if r.random() < 0.3
@@ -1361,6 +1374,8 @@ def explore(ck, impl, drv, n_unit, n_vf, n_prog, n_ov, salt="", model=True):
             ck.count("program-create-overlay")
         if prog["owned"]:
             ck.count("program-owned")
+        if prog.get("identity_template"):
+            ck.count("program-template-already-carries-identity" + (":owned-created-as-is" if prog["owned"] and not prog["overlays"] and prog["mode"] == "create" else ""))
         env = {"inputs": prog["inputs"]}
         n_active = sum(1 for st in prog["overlays"] if ref_skip(st.get("skipIf"), env) is not True)
         if n_active >= 2:
@@ -1423,7 +1438,7 @@ def run(tier: str) -> int:
                 ck.violate({"kind": kind, "case": case, "corpus": f.name}, bad)
 
     if tier == "quick":
-        sizes = dict(n_unit=6000, n_vf=200, n_prog=220, n_ov=800)
+        sizes = dict(n_unit=5000, n_vf=200, n_prog=220, n_ov=800)
     else:
         sizes = dict(n_unit=60000, n_vf=2500, n_prog=3000, n_ov=10000)
     explore(ck, impl, drv, **sizes)
